@@ -826,6 +826,20 @@ func generate(r *lib.Run) {
 		}
 		r.Case("hw", toks, obs)
 	}
+	// truncated / corrupted frames of every kind between the well-formed ones (differential only)
+	for i := 0; i < 60*scale; i++ {
+		r.Do("hm", g.malformedHistory(10+g.rng.Intn(25))...)
+		r.Stat("class.malformed", 1)
+	}
+	r.Stat("malformed.parse_rejected", malformedStats.parseErr)
+	r.Stat("malformed.rejected_but_tables_changed", malformedStats.rejectedChanged)
+	r.Stat("malformed.panics", malformedStats.panics)
+	if malformedSample != "" {
+		r.Sample(malformedSample)
+	}
+	if malformedPanic != "" {
+		r.Sample("malformed frame made the library panic (same in both runs; C08 matter): " + malformedPanic)
+	}
 	classes := []struct {
 		name  string
 		n     int
